@@ -37,9 +37,14 @@ CHECKS = {
    text='Avtp_Vss_Pad for every message length 12..96 (thorough: ..2044): length/pad fields, exactly the pad bytes zeroed, everything else incl. guard bytes unchanged; exact-extent object per concrete length; all 512 length values through the dedicated accessors. LE+BE.'),
  'C10': dict(cat='model_checking', ref='3/C10', tech=BMC + '; exhaustive exact-extent queries over all length vectors in the bound',
    text='Pack / count / unpack (length phase and data phase) for EVERY vector of up to 3 strings of up to 2 bytes (thorough: 4 x 3, plus a symbolic-shape functional query) with symbolic bytes and requested counts S-1..S+2, all objects of exact extent; count of 300 empty strings.'),
+
+ 'C07': dict(cat='model_checking', ref='3/C07', tech=BMC + ' with a reference encoder written from acf-vss.md',
+   text='SetVssPath/SetVssData/CalcVssPathLength for all 24 datatypes x both address modes: (F) symbolic path length 0..6 and value length 0..16 bytes in whole elements (thorough: 16 / 64), symbolic path/value bytes (floats as raw bit patterns), all prior contents - whole object incl. guard bytes compared with the reference encoding; (E) every concrete (path length, element count) pair in the bound with message, path source and value source of exact extent; reserved address modes x every datatype and every reserved datatype code: object must equal its snapshot. LE+BE.'),
+ 'C08': dict(cat='model_checking', ref='3/C08', tech=BMC + ' with a reference encoder written from acf-vss.md',
+   text='GetVssPath/GetVssData/CalcVssPathLength on messages produced by the reference encoder (F, symbolic lengths) and by the library encoder shown equal to the reference (E, exact extent): decoded path/value equal the originals bit for bit, the length query (NULL destination) writes only the length, nothing beyond the reported length is written into exact-extent destinations, the message is never modified and never over-read. Same bounds as C07. LE+BE.'),
 }
 NA = {}
-for i in (7,8,14,15,16,18,19,20):
+for i in (14,15,16,18,19,20):
     NA['C%02d' % i] = 'check not built yet in this round (see DESIGN.md section 3 for the plan)'
 
 def main():
